@@ -2,6 +2,7 @@ import XsgModel.Props.C06
 import XsgModel.Props.C03
 import XsgModel.Model.Render
 import XsgModel.Model.Checks
+import XsgModel.Proofs.AdmitsSpec
 /-!
 # C01 — generated structs admit every document they were inferred from
 
@@ -135,5 +136,11 @@ example : ∃ t, parseHistory (exampleHistory.map Doc.events) = .ok t ∧ ∀ d 
     rcases hd with rfl | rfl | rfl <;> decide
   · intro d hd d' hd'; simp only [exampleHistory, List.mem_cons, List.mem_nil_iff, or_false] at hd hd'
     rcases hd with rfl | rfl | rfl <;> rcases hd' with rfl | rfl | rfl <;> rfl
+
+/-- the Boolean function the check evaluates on the schema read back from the implementation's text decides
+exactly the declarative relation `SAdmits` (every attribute and child has a field bound to its local name, every
+non-Option field occurs, every non-Vec child at most once, character data only beside a text field, recursively):
+for every schema and every document element -/
+theorem C01_admits_decides (s : Schema) (o : Node) : admits s o = true ↔ SAdmits s o := admits_iff s o
 
 end Xsg
